@@ -675,10 +675,12 @@ fn config_case(ctx: &Ctx, bin: &str, case: usize, name_idx: usize, seed: u64, r:
             let mut lists: Vec<Vec<String>> = vec![];
             for c in [Cat::Opt, Cat::Vul, Cat::Qa] {
                 let names: Vec<String> = ctx.doc.of(c).iter().filter(|n| by_name(c, n).is_ok()).cloned().collect();
-                let mut v = match rng.below(3) {
+                let mut v = match rng.below(4) {
                     0 => names.clone(),
                     1 => rng.subset(&names, 1, 2),
-                    _ => rng.subset(&names, 1, 6),
+                    2 => rng.subset(&names, 1, 6),
+                    // a category may be switched off altogether
+                    _ => vec![],
                 };
                 rng.shuffle(&mut v);
                 lists.push(v);
@@ -757,11 +759,34 @@ fn config_case(ctx: &Ctx, bin: &str, case: usize, name_idx: usize, seed: u64, r:
             }
             let text = String::from_utf8_lossy(&read_report(&s, "/w").unwrap_or_default()).to_string();
             let parsed = report::parse(&text, &t);
-            if parsed.sections.is_empty() {
-                r.count("canary_dead", 1);
-                return None;
-            }
             let want = report::resolve(cat, &name);
+            if parsed.sections.is_empty() {
+                // no section at all: either the canary texts hold no finding of this pattern (asked
+                // of the library directly, file by file), or the selected pattern was not analysed
+                let mut expected_files = vec![];
+                if let Some(p) = want {
+                    for (n, text) in crate::corpus::canary_texts() {
+                        if let Ok(lines) = crate::pats::analyze_file(&text, 0, p) {
+                            if !lines.is_empty() {
+                                expected_files.push(n);
+                            }
+                        }
+                    }
+                }
+                if expected_files.is_empty() {
+                    r.count("canary_dead", 1);
+                    return None;
+                }
+                return Some((
+                    "binary_selected_pattern_not_reported".into(),
+                    format!(
+                        "real binary: --toml selecting only {} '{}' (path = the canary tree) exits with 0 and its report has no section, although the library finds this pattern in {:?} when called file by file",
+                        cat.name(),
+                        spelled,
+                        expected_files
+                    ),
+                ));
+            }
             let wrong: Vec<String> = parsed
                 .sections
                 .iter()
